@@ -464,6 +464,7 @@ func isInvoke(name string) func(*an.Expr) bool {
 }
 
 func runC13(c *Ctx) {
+	c01PerInterface(c) // the wildcard expands from the interface's own addresses: own plugin instances per interface (shared R-C01-6)
 	sharedRejections(c, "R-C13-7", "prefixes-overlap")
 	listingErrors(c, "R-C13-6", [][3]string{{"internal/plugin", "Prefix", "current"}, {"internal/plugin", "Prefix", "Apply"}, {"internal/system", "addresser", "AddressesByIndex"}})
 	cur := c.needMethod("R-C13-1", "internal/plugin", "Prefix", "current")
@@ -756,6 +757,7 @@ func addrFlags(c *Ctx, rule string) {
 // ---- C14 ------------------------------------------------------------------
 
 func runC14(c *Ctx) {
+	c01PerInterface(c) // shared R-C01-6
 	// the wildcard and the duplicate test work on the address: a zoned spelling must not slip past them
 	sharedRejections(c, "R-C14-6", "rdnss-zoned", "rdnss-wildcard-twice", "rdnss-duplicate")
 	addrFlags(c, "R-C14-7")
